@@ -10,6 +10,9 @@ require (
 	golang.org/x/text v0.4.0
 )
 
-require github.com/pkg/errors v0.8.1 // indirect
+require (
+	github.com/pkg/errors v0.8.1 // indirect
+	golang.org/x/sys v0.2.0 // indirect
+)
 
 replace github.com/wollac/iota-crypto-demo => /repo
